@@ -10,7 +10,7 @@ import random
 
 from . import common
 
-MODULES = ["CoapVerif.Props.C07", "CoapVerif.Lemmas.FramingCodecLink"]
+MODULES = ["CoapVerif.Props.C07", "CoapVerif.Props.C07Write", "CoapVerif.Lemmas.FramingCodecLink"]
 GENERATED = ["TcpFraming.lean", "CodecConsts.lean", "OptionDefs.lean"]
 SIGNALS = [225, 226, 227, 228, 229]
 
@@ -158,6 +158,9 @@ def gen_cases(ctx):
         # a quarter of the streams go to the connection a tcp.Server creates for an accepted stream (configured through
         # options.With...: the wiring of the limits into the per-connection session is part of what is checked)
         srv = rng.random() < 0.25
+        # one stream in eight goes to a connection that has a ping of its own outstanding : the stream starts with
+        # the matching Pong, so the connection's pending-ping handler runs before the frames that follow it
+        ping = (not srv) and rng.random() < 0.15
         frames = []
         kinds = []
         for _ in range(rng.choice([1, 2, 3, 5])):
@@ -169,11 +172,14 @@ def gen_cases(ctx):
             pos = rng.randrange(len(frames) + 1)
             frames.insert(pos, f)
             kinds.insert(pos, k)
+        if ping:
+            frames.insert(0, bytes([0x08, 0xe3]) + b"PPPPPPPP")   # the harness puts the ping's token in place of the placeholder
+            kinds.insert(0, "pong-for-own-ping")
         stream = b"".join(frames)
         if rng.random() < 0.1:
             stream = stream[: rng.randrange(1, len(stream) + 1)]   # stream ends in the middle of a frame
         for pieces in chunkings(rng, stream, 4 if thorough else 3):
-            cases.append(("%s %d %d %d" % ("cfgsrv" if srv else "cfg", max_size, cache, queue), [p.hex() or "-" for p in pieces],
+            cases.append(("%s %d %d %d" % ("cfgsrv" if srv else "cfgping" if ping else "cfg", max_size, cache, queue), [p.hex() or "-" for p in pieces],
                           {"kinds": kinds + (["via-server"] if srv else []), "len": len(stream), "chunks": len(pieces)}))
     return cases
 
@@ -196,7 +202,7 @@ def explore(ctx, art):
         return
     model = judge = None
     if art.get("driver"):
-        dl = [("cfg" + l[6:]) if l.startswith("cfgsrv ") else l for l in lines]   # the model does not care who made the connection
+        dl = [("cfg" + l[6:]) if l.startswith("cfgsrv ") else ("cfg" + l[7:]) if l.startswith("cfgping ") else l for l in lines]   # the model does not care who made the connection
         rc, model, _ = common.pipe_lines([art["driver"], "model"], dl)
         jl = [l + " | " + o if l.startswith("chunk") else l for l, o in zip(dl, impl)]
         rc2, judge, _ = common.pipe_lines([art["driver"], "judge"], jl)
@@ -254,10 +260,44 @@ def explore(ctx, art):
         ctx.sample({"cfg": cfg, "chunks": chunks[:6], "kinds": meta["kinds"]})
 
 
+def write_side(ctx, art):
+    """The writing direction (Props/C07Write.lean): 1 + w goroutines write on one real connection at the same moment, one of
+    them a frame of 20 KiB ... 300 KiB (the peer reads at most 64 KiB at a time); the collected stream must be exactly the
+    written messages, those of each writer in its order (judge Spec/WritePath.lean)."""
+    rng = random.Random(ctx.seed + 7)
+    thorough = ctx.tier == "thorough"
+    lines = []
+    for i in range(200 if thorough else 40):
+        big = rng.choice([100, 5000, 16384, 16385, 20000, 40000, 65536, 70000, 131072, 200000, 300000])
+        lines.append("wr %d %d %d %d" % (rng.randrange(1 << 30), big, rng.choice([3, 6, 10]), rng.choice([1, 2, 3, 5])))
+    # ... and in real time (no bubble): four big frames against 2-3 writers of 200-400 short messages each, so that the
+    # writers contend for the connection's write lock on different processors
+    for i in range(40 if thorough else 8):
+        lines.append("wrr %d %d %d %d" % (rng.randrange(1 << 30), rng.choice([40000, 70000, 200000, 300000]), rng.choice([200, 300, 400]), rng.choice([2, 3])))
+    impl = common.run_test_harness(ctx, art["test"], "TestC07Write", lines, tag="write", timeout=600)
+    if impl is None or len(impl) != len(lines):
+        return
+    rc, judge, _ = common.pipe_lines([art["driver"], "wjudge"], [l + " || " + o for l, o in zip(lines, impl)])
+    if rc or len(judge) != len(lines):
+        ctx.broken.append(("model", "C07 driver run failed (wjudge)", ""))
+        return
+    for l, o, j in zip(lines, impl, judge):
+        ctx.cov["evaluations"] += 1
+        ctx.count("write-" + ("big" if int(l.split()[2]) > 16384 else "small"))
+        if o.startswith("panic") or o in ("bad-op", "conn-error"):
+            ctx.violations.append(common.Violation("no-crash", "C07:wr:panic", "%s -> %s" % (l, o[:200]), {"input": [l], "write_side": True, "observed": o[:400]}))
+        elif j != "ok":
+            ctx.violations.append(common.Violation("written-stream-is-the-sent-messages", "C07:wr", "%s: %s" % (l, j[:300]),
+                                                   {"input": [l], "write_side": True, "observed": o[:2000], "judge": j[:600]}))
+    ctx.cov["traces_validated_against_impl"] = ctx.cov.get("traces_validated_against_impl", 0) + len(lines)
+
+
 def run(ctx):
     art = common.standard_prepare(ctx, MODULES, hx=False, test=True, generated=GENERATED)
     if art.get("test"):
         explore(ctx, art)
+        if art.get("driver"):
+            write_side(ctx, art)
     return common.finish(ctx)
 
 
@@ -267,8 +307,23 @@ def replay(ctx, rep):
     if not lines:
         print("replay file names no failing input:", rep.get("no_longer_checks"))
         return 1
+    if rep.get("write_side"):
+        # a race between writers: repeat the line a few times
+        bad = 0
+        for k in range(10):
+            impl = common.run_test_harness(ctx, art["test"], "TestC07Write", lines, tag="replay")
+            rc, judge, _ = common.pipe_lines([art["driver"], "wjudge"], [l + " || " + o for l, o in zip(lines, impl)])
+            for l, o, j in zip(lines, impl, judge):
+                if j != "ok":
+                    print("%s (run %d): %s" % (l, k, j[:300]))
+                    bad += 1
+            if bad:
+                break
+        if bad:
+            print("VIOLATION property=C07 replay=(replayed) still reproduces")
+        return 1 if bad else 0
     impl = common.run_test_harness(ctx, art["test"], "TestC07", lines, tag="replay")
-    dl = [("cfg" + l[6:]) if l.startswith("cfgsrv ") else l for l in lines]
+    dl = [("cfg" + l[6:]) if l.startswith("cfgsrv ") else ("cfg" + l[7:]) if l.startswith("cfgping ") else l for l in lines]
     jl = [l + " | " + o if l.startswith("chunk") else l for l, o in zip(dl, impl)]
     rc, judge, _ = common.pipe_lines([art["driver"], "judge"], jl)
     bad = 0
